@@ -29,9 +29,15 @@ UNIVERSES = {
 # reference model
 # ----------------------------------------------------------------------------
 
+def real_name(nm):
+    """the name a node actually gets: built at run time, so that two nodes with one name hold equal but DISTINCT str objects
+    (as nodes loaded from XML or JSON do) - a name test has to be ==, not `is`"""
+    return ("n" + nm + " ")[:-1]
+
+
 class Model:
     def __init__(self, names):
-        self.names = list(names)
+        self.names = [real_name(nm) for nm in names]
         k = len(names)
         self.children = [[] for _ in range(k)]
         self.reg = [True] * k
@@ -74,6 +80,8 @@ class Model:
                 for d in ("L", "R"):
                     for sib in (True, False):
                         ops.append(["shift", p, c, d, sib])
+                ops.append(["shift!", p, c, "not-a-direction", True])
+                ops.append(["shift!", p, c, "not-a-direction", False])
                 for new in free:
                     if new != c and self.names[new] == self.names[c]:
                         ops.append(["replace", p, c, new, False])
@@ -143,7 +151,7 @@ class Model:
 
 def build(names):
     core.reset_store()
-    return [Node(nm, id=f"n{i}") for i, nm in enumerate(names)]
+    return [Node(real_name(nm), id=f"n{i}") for i, nm in enumerate(names)]
 
 
 def impl_apply(nodes, op):
@@ -163,6 +171,8 @@ def impl_apply(nodes, op):
         return nodes[p].replace_child(nodes[old], nodes[new], delete_old=delete)
     if kind == "shift":
         _, p, c, d, sib = op
+        if d == "not-a-direction":
+            return nodes[p].shift(nodes[c], None, sib)
         return nodes[p].shift(nodes[c], Shift.LEFT if d == "L" else Shift.RIGHT, sib)
     raise AssertionError(op)
 
@@ -479,9 +489,9 @@ def scale_work(item):
             for op in ops + [None]:
                 core.reset_store()
                 if flavour == "same-id":
-                    nodes = [Node(nm, id="dup") for nm in names]
+                    nodes = [Node(real_name(nm), id="dup") for nm in names]
                 else:
-                    nodes = [Node(nm, id=f"n{i}") for i, nm in enumerate(names)]
+                    nodes = [Node(real_name(nm), id=f"n{i}") for i, nm in enumerate(names)]
                     nodes[0].nsmap = {None: "urn:default", "p": "urn:p"}
                 model = Model(names)
                 ok = True
